@@ -7,6 +7,7 @@ import (
 	"net"
 	"net/http"
 	"runtime"
+	"slices"
 	"strings"
 	"sync"
 	"sync/atomic"
@@ -31,11 +32,12 @@ type ctxExpect struct {
 }
 
 type ctxStep struct {
-	Shape    string    `json:"shape"`
-	Replaced bool      `json:"replaced"`
-	Tok      int       `json:"tok"`
-	Expect   ctxExpect `json:"expect"`
-	Clone    bool      `json:"clone"`
+	Shape      string    `json:"shape"`
+	Replaced   bool      `json:"replaced"`
+	Tok        int       `json:"tok"`
+	Expect     ctxExpect `json:"expect"`
+	Clone      bool      `json:"clone"`
+	KeepParams bool      `json:"keepparams"`
 }
 
 type ctxVec struct {
@@ -132,7 +134,8 @@ func expectFor(e ctxExpect, shape, tok string, ipLast int) ctxObs {
 	o.Path = map[string]string{"direct": "/p/", "tsr": "/i/", "redirect": "/r/", "noroute": "/nope/", "nomethod": "/p/", "options": "/p/",
 		"lookup": "/p/", "lookupclone": "/p/", "clonewith": "/p/", "clone": "/p/",
 		"tsrclone": "/ic/", "hostdirect": "/hd/", "hosttsr": "/hi/", "statichost": "/hs/", "hijack": "/hj/", "txnlookup": "/p/",
-		"tsrclonewith": "/iw/", "tsrlookup": "/i/", "wrapclone": "/wc/", "directcopy": "/p/", "noroutecopy": "/nope/"}[shape] + tok
+		"tsrclonewith": "/iw/", "tsrlookup": "/i/", "wrapclone": "/wc/", "directcopy": "/p/", "noroutecopy": "/nope/",
+		"swapped": "/sw/", "wrapf": "/wf/"}[shape] + tok
 	switch shape { // routes without a parameter: the path carries no token
 	case "staticdirect":
 		o.Path = "/sd"
@@ -164,6 +167,10 @@ func expectFor(e ctxExpect, shape, tok string, ipLast int) ctxObs {
 			o.Route = "/i/{x}/"
 		case "wrapclone":
 			o.Route = "/wc/{x}"
+		case "swapped":
+			o.Route = "/sw/{x}"
+		case "wrapf":
+			o.Route = "/wf/{x}"
 		}
 	}
 	return o
@@ -201,6 +208,7 @@ type ctxReplayer struct {
 // runSeq replays one sequence of request shapes on a fresh router.
 func (cr *ctxReplayer) runSeq(v ctxVec, run string) {
 	var obsNow *ctxObs
+	var paramsNow fox.Params
 	var cloneNow fox.Context
 	var cloneObs *ctxObs
 	cur := ""
@@ -337,6 +345,53 @@ func (cr *ctxReplayer) runSeq(v ctxVec, run string) {
 		cp.Close()
 		dirty(c, cur)
 	})
+	// the handler observes, then replaces the request and the writer of its context and reads the foreign query: the
+	// getters follow the setters, and whoever gets this context next sees nothing of it
+	rt.MustHandle("GET", "/sw/{x}", func(c fox.Context) {
+		o := observeCtx(c)
+		obsNow = &o
+		foreign, _ := newRequest("GET", "foreign"+cur+".example", "/foreign/"+cur, "q=foreign"+cur)
+		foreign.Header.Set("X-Req", "foreign"+cur)
+		foreign.RemoteAddr = "198.51.100.9:1"
+		ww := wrappedWriter{c.Writer()}
+		c.SetRequest(foreign)
+		c.SetWriter(ww)
+		if c.Request() != foreign || c.Header("X-Req") != "foreign"+cur || c.Path() != "/foreign/"+cur || c.Host() != "foreign"+cur+".example" {
+			obsNow.Err = "after SetRequest the context does not show the request it was given"
+		}
+		if got, ok := c.Writer().(wrappedWriter); !ok || got != ww {
+			obsNow.Err = "after SetWriter the context does not show the writer it was given"
+		}
+		if ps := slices.Collect(c.Params()); len(ps) != 1 || ps[0].Value != cur || c.Route() == nil || c.Route().Pattern() != "/sw/{x}" {
+			obsNow.Err = "SetRequest / SetWriter changed the route or the parameters of the context"
+		}
+		dirty(c, cur)
+	})
+	// an http.HandlerFunc behind WrapF: the request it gets carries the parameters of the current request, the writer is the
+	// context's; the parameter list is a copy of its own (re-read after later requests)
+	rt.MustHandle("GET", "/wf/{x}", func(c fox.Context) {
+		o := observeCtx(c)
+		obsNow = &o
+		ran := false
+		fox.WrapF(func(w http.ResponseWriter, r *http.Request) {
+			ran = true
+			ps := fox.ParamsFromContext(r.Context())
+			paramsNow = ps
+			if len(ps) != 1 || ps[0].Key != "x" || ps[0].Value != cur {
+				obsNow.Err = fmt.Sprintf("parameters handed to the wrapped handler: %v", ps)
+			}
+			if r.URL.Path != "/wf/"+cur || r.Header.Get("X-Req") != cur || r.URL.Query().Get("q") != cur {
+				obsNow.Err = "the wrapped handler got another request than the current one"
+			}
+			if w != http.ResponseWriter(c.Writer()) {
+				obsNow.Err = "the wrapped handler got another writer than the context's"
+			}
+		})(c)
+		if !ran {
+			obsNow.Err = "the wrapped handler did not run"
+		}
+		dirty(c, cur)
+	})
 	// the handler routes its own request by hand through a read-only transaction
 	rt.MustHandle("GET", "/tl/{y}", func(c fox.Context) {
 		inner, _ := newRequest("GET", cur+".example", "/p/"+cur, "q="+cur)
@@ -388,6 +443,12 @@ func (cr *ctxReplayer) runSeq(v ctxVec, run string) {
 		})
 	}
 	var kept []keptClone
+	type keptParams struct {
+		ps   fox.Params
+		tok  string
+		step int
+	}
+	var keptPs []keptParams
 	var shapes []string
 	for i, st := range v.Steps {
 		cur = tokStr(run, st.Tok)
@@ -439,6 +500,10 @@ func (cr *ctxReplayer) runSeq(v ctxVec, run string) {
 			path = "/tsl/" + cur
 		case "wrapclone":
 			path = "/wc/" + cur
+		case "swapped":
+			path = "/sw/" + cur
+		case "wrapf":
+			path = "/wf/" + cur
 		case "directcopy":
 			path = "/p/" + cur
 		case "noroutecopy":
@@ -454,7 +519,7 @@ func (cr *ctxReplayer) runSeq(v ctxVec, run string) {
 			req.Header.Set("X-Copy", "1")
 		}
 		req.RemoteAddr = fmt.Sprintf("192.0.2.%d:4000", 10+i)
-		obsNow, cloneNow, cloneObs = nil, nil, nil
+		obsNow, cloneNow, cloneObs, paramsNow = nil, nil, nil, nil
 		panicked := any(nil)
 		func() {
 			defer func() { panicked = recover() }() // a panic of fox while it serves the request is a verdict, not a crash of the harness
@@ -500,6 +565,14 @@ func (cr *ctxReplayer) runSeq(v ctxVec, run string) {
 				kept = append(kept, keptClone{c: cloneNow, expect: cw, step: i + 1})
 			}
 		}
+		for _, k := range keptPs {
+			if len(k.ps) != 1 || k.ps[0].Key != "x" || k.ps[0].Value != k.tok {
+				report(fmt.Sprintf("parameters handed to a wrapped handler at step %d re-read later", k.step), []string{k.tok}, fmt.Sprint(k.ps))
+			}
+		}
+		if st.KeepParams && paramsNow != nil {
+			keptPs = append(keptPs, keptParams{ps: paramsNow, tok: cur, step: i + 1})
+		}
 		// clones taken earlier must be unchanged after this request
 		for _, k := range kept {
 			if k.step == i+1 {
@@ -513,7 +586,7 @@ func (cr *ctxReplayer) runSeq(v ctxVec, run string) {
 }
 
 func checkC12(r *Run) {
-	maxLen := 3 // 23 shapes x with / without a tree replacement: about 100 000 sequences; length 4 would be 4.5 million
+	maxLen := 3 // 25 shapes x with / without a tree replacement: about 127 000 sequences; length 4 would be 6 million
 	gen := fmt.Sprintf("---- MODULE Gen_Context ----\nGenMaxLen == %d\n====\n", maxLen)
 	model := r.runTLC(tlcOpts{Module: "MC_ContextModel", Gen: map[string]string{"Gen_Context.tla": gen}, Timeout: 5 * time.Minute})
 	model.mustClean("MC_ContextModel")
